@@ -45,7 +45,8 @@ where
     pub const fn new(modulus: Odd<Uint<LIMBS>>) -> Self {
         // `R mod modulus` where `R = 2^BITS`.
         // Represents 1 in Montgomery form.
-        let one = Uint::MAX.rem(modulus.as_nz_ref()).wrapping_add(&Uint::ONE);
+        // (computed as `(R - modulus) mod modulus`, which is also right for modulus 1)
+        let one = modulus.as_ref().wrapping_neg().rem(modulus.as_nz_ref());
 
         // `R^2 mod modulus`, used to convert integers to Montgomery form.
         let r2 = one
@@ -85,9 +86,11 @@ impl<const LIMBS: usize> MontyParams<LIMBS> {
     pub const fn new_vartime(modulus: Odd<Uint<LIMBS>>) -> Self {
         // `R mod modulus` where `R = 2^BITS`.
         // Represents 1 in Montgomery form.
-        let one = Uint::MAX
-            .rem_vartime(modulus.as_nz_ref())
-            .wrapping_add(&Uint::ONE);
+        // (computed as `(R - modulus) mod modulus`, which is also right for modulus 1)
+        let one = modulus
+            .as_ref()
+            .wrapping_neg()
+            .rem_vartime(modulus.as_nz_ref());
 
         // `R^2 mod modulus`, used to convert integers to Montgomery form.
         let r2 = Uint::rem_wide_vartime(one.square_wide(), modulus.as_nz_ref());
